@@ -13,7 +13,7 @@ pub fn prop() -> Prop {
     Prop {
         id: "C04",
         level: "model_checking",
-        rule: "depth 1: every one of the 108 pure functions on every argument tuple within its arity (variadic: 2 and 3 arguments) over 45 atoms of all types (absent; keys that are prefixes of one another and the empty key; empty collections inside collections; strings spelled like literals; 0 1 2 3 4 -1 1.5 -0.5 2^53 -2^63 2^64-1; empty, ASCII, non-ASCII, numeric-looking and JSON-looking strings; empty, singleton, sorted/unsorted, nested and mixed lists; empty and 1..3-member objects) plus per-function atoms (patterns, formats, instants, base64, environment names, decimal strings) and, for functional arguments, 12 bodies; the same atoms arriving as the input, a member, an element, a variable, a macro and a selected name; depth 2: every function with one argument replaced by every function applied to its documented well-typed arguments; depth 3..5: every nesting of <=3 (thorough <=4) context constructors (map, filter, flat_map, fold, sort_by, map_values, group_by, pipe, set, define over 6 sources) around 8 leaves reading ., ^, ^^, :x, @m; size thresholds: 45..65 string, list and object functions on strings (multi-byte character at either end), lists and objects of 15..1025 characters / items with counts around the size; non-trivial = the reference result is a value; distinct by construction",
+        rule: "depth 1: every one of the 108 pure functions on every argument tuple within its arity (variadic: 2 and 3 arguments) over 45 atoms of all types (absent; keys that are prefixes of one another and the empty key; empty collections inside collections; strings spelled like literals; 0 1 2 3 4 -1 1.5 -0.5 2^53 -2^63 2^64-1; empty, ASCII, non-ASCII, numeric-looking and JSON-looking strings; empty, singleton, sorted/unsorted, nested and mixed lists; empty and 1..3-member objects) plus per-function atoms (patterns, formats, instants, base64, environment names, decimal strings) and, for functional arguments, 12 bodies; the same atoms arriving as the input, a member, an element, a variable, a macro and a selected name; depth 2: every function with one argument replaced by every function applied to its documented well-typed arguments; depth 3..5: every nesting of <=3 (thorough <=4) context constructors (map, filter, flat_map, fold, sort_by, map_values, group_by, pipe, set, define over 6 sources) around 8 leaves reading ., ^, ^^, :x, @m; size thresholds: 45..65 string, list and object functions on strings (multi-byte character at either end), lists and objects of 15..1025 characters / items with counts around the size; the documented example call of every function with each literal argument in turn read from a member that changes from record to record and from element to element (A B A A / B A B B), against the same record alone; non-trivial = the reference result is a value; distinct by construction",
         explanation: "each expression is one --select run on a one-value input; the value of the selection (or its absence) is compared with the reference evaluator written from the function documentation (self-checked against every documented example before the run); cases the documentation leaves open are executed but not compared",
         assumptions: COMMON_ASSUMPTIONS.to_vec(),
         guards: vec!["binding-name-with-punctuation", "long-string-or-list", "n-equals-zero", "n-equals-size", "n-beyond-size", "non-ascii-string-argument", "absent-argument", "ill-typed-first-argument", "integral-result-from-fractions", "parent-read-under-two-context-constructors", "documentation-examples-agree-with-the-reference"],
@@ -474,5 +474,9 @@ fn run(ctx: &mut Ctx) {
     depth2(ctx);
     long_inputs(ctx);
     context_grammar(ctx);
+    // what a call gives depends on its arguments only: the documented example call of every function with one argument
+    // read from the record (directly, through a variable, through a macro), over records A B A A / B A B B, against the
+    // same record alone (shared with C12/C13)
+    super::c12::rebinding_around_every_function(ctx);
     let _ = Tier::Quick;
 }
